@@ -20,6 +20,19 @@ pub fn generate(t: &mut Tape, syn: Syntax, o: &ReqOpts, labels: &mut Vec<&'stati
     let mut out = String::new();
     let n = 2 + t.pick(10);
     let mut cid = 0;
+    if t.chance(20) {
+        // a long group (more than twenty members) in which names repeat: the sort must keep equal names in input order,
+        // whatever algorithm sorts long slices
+        let len = 21 + t.pick(40);
+        for i in 0..len {
+            let name = NAMES[t.pick(5)];
+            out.push_str(&format!("local {name} = require(\"m{i}\")\n"));
+        }
+        labels.push("long-group-with-repeated-names");
+        if t.chance(128) {
+            out.push('\n');
+        }
+    }
     for i in 0..n {
         // separators
         if i > 0 {
